@@ -29,6 +29,9 @@ CHECKS = {
  "C09": dict(tech="TLC model checking of the naming convention over a name space + TLC set comparison of output identifiers with the images of the source variables",
    text="Names.tla: 1.26M states (all pairs of names up to 4 characters over a small alphabet x kinds) satisfy Faithful (same Color BASIC identity <=> same target identifier) and NoCollision. GenSeq.tla enumerates all 962 names of length 1-2 and 3240 keyword-spelling names of length 3-4; pairs are placed in 36 syntactic positions of one program; Trace_C09.tla demands that the identifiers of the real output equal the images of the source variables.",
    note="Trusted: lexer shim, the list of generated identifiers (TargetOnly in Machine.tla).", ref="5 C09"),
+ "C10": dict(tech="TLC static obligations over the parse of the output (declaration scan) against extents/sizes computed from the source parse and the options",
+   text="Trace_C10.tla walks the DIM statements and variable occurrences of the emitted text in textual order (clauses once, declared, extent, before-use, sized); expected extents and sizes come from the source parse, the default string size and the per-name configuration. String and numeric variables are placed in every position class (top level, only inside built-in / convertible function arguments, only READ/INPUT target, implicit array element, DIMensioned scalar/array, temporaries, read filter, joystick/hbuff prologue) x the option cube (default size 32/80 x subsets of a 3-entry size map x initialise), enumerated by GenSeq.tla.",
+   note="Trusted: B09/Decb parsers, lexer shims. Position of BASE relative to DIM is not judged (BASIC09 uncertain).", ref="5 C10"),
 }
 NA_REASON = "check not built yet in this round (work in progress; see DESIGN.md Appendix D)"
 m = {"version": 1, "setup_cmd": "cd /verif && ./setup.sh",
